@@ -945,3 +945,25 @@ fn write_extra_group_structure(snf: &matdense::SmithNormalForm, g: &ClassGroup, 
     }
     w.write_all(&buf[..]).unwrap();
 }
+
+/// Verification hooks (only with `--cfg yamaquasi_verif`): read-only view of the private
+/// bookkeeping of `CRelationSet` (spanning tree and stored partial relations).
+#[cfg(yamaquasi_verif)]
+pub mod verif_hooks {
+    use super::*;
+
+    /// `paths` in key order: (large prime, path from the root 1).
+    pub fn vh_paths(s: &CRelationSet) -> Vec<(u32, Vec<u32>)> {
+        s.paths.iter().map(|(&p, v)| (p, v.clone())).collect()
+    }
+
+    /// `doubles` in key order: ((p, q), stored relation).
+    pub fn vh_doubles(s: &CRelationSet) -> Vec<((u32, u32), CRelation)> {
+        s.doubles.iter().map(|(&k, r)| (k, r.clone())).collect()
+    }
+
+    /// `doubles_rev` in key order.
+    pub fn vh_doubles_rev(s: &CRelationSet) -> Vec<(u32, u32)> {
+        s.doubles_rev.iter().cloned().collect()
+    }
+}
